@@ -137,6 +137,9 @@ def build():
         put(f"{p}.ws", ["", "   ", "\t", ""], lang)
         put(f"{p}.comments", [_comment(lang, "only a comment"), _comment(lang, "nocl")], lang)
         put(f"{p}.nonl", _wrap(lang, _fn(lang, "z_" + _ident(f"{p}.nonl"), 3), f"{p}.nonl"), lang, trailing=False)
+        # threshold-length functions as the whole file, no trailing newline (N lines, N-1 newline characters)
+        for L in (31, 61):
+            put(f"{p}.bare{L}", _fn(lang, "w_" + _ident(f"{p}.bare{L}"), L), lang, trailing=False)
         # malformed: leaves parentheses / braces open, header without body
         cid = f"{p}.unbal"
         nm = "u_" + _ident(cid)
